@@ -281,6 +281,11 @@ pub fn run(opts: &Opts, out: &mut Emitter) {
             ("[]", tir::Expression::Assets(vec![])),
             ("[ada 5]", tir::Expression::Assets(vec![ada(5)])),
             ("[tok 2, ada -1]", tir::Expression::Assets(vec![tok(2), ada(-1)])),
+            // single entries of one policy under different names, a bare name, the same class twice
+            ("[tok 2]", tir::Expression::Assets(vec![tok(2)])),
+            ("[tok2 3]", tir::Expression::Assets(vec![tir::AssetExpr { policy: tir::Expression::Bytes(P1.to_vec()), asset_name: tir::Expression::Bytes(b"TK2".to_vec()), amount: tir::Expression::Number(3) }])),
+            ("[name 4]", tir::Expression::Assets(vec![tir::AssetExpr { policy: tir::Expression::None, asset_name: tir::Expression::Bytes(b"nm".to_vec()), amount: tir::Expression::Number(4) }])),
+            ("[tok -2]", tir::Expression::Assets(vec![tok(-2)])),
         ];
         // what a reduced amount means: nothing, a number, or amounts per class (zeros immaterial)
         let meaning = |e: tir::Expression| -> Value {
@@ -305,7 +310,19 @@ pub fn run(opts: &Opts, out: &mut Emitter) {
                     a.clone(),
                     tir::Expression::EvalBuiltIn(Box::new(tir::BuiltInOp::Negate(b.clone()))),
                 )));
-                out.case("expr-law", || json!({"probe": "expr-law", "a": an, "b": bn, "obs": {"sub": meaning(lhs.clone()), "add_neg": meaning(rhs.clone())}}));
+                // the reducer's + against the value algebra, in both orders (only for two asset lists)
+                let sum = |x: &tir::Expression, y: &tir::Expression| tir::Expression::EvalBuiltIn(Box::new(tir::BuiltInOp::Add(x.clone(), y.clone())));
+                let value_sum: Value = match (a, b) {
+                    (tir::Expression::Assets(xs), tir::Expression::Assets(ys)) => {
+                        let c = CanonicalAssets::from(xs.clone()) + CanonicalAssets::from(ys.clone());
+                        let mut entries: Vec<(String, String)> = c.iter().filter(|(_, v)| **v != 0).map(|(k, v)| (format!("{k:?}"), v.to_string())).collect();
+                        entries.sort();
+                        if entries.is_empty() { json!({"ok": "empty"}) } else { json!({"ok": {"assets": entries}}) }
+                    }
+                    _ => Value::Null,
+                };
+                out.case("expr-law", || json!({"probe": "expr-law", "a": an, "b": bn, "obs": {"sub": meaning(lhs.clone()), "add_neg": meaning(rhs.clone()),
+                    "add": meaning(sum(a, b)), "add_flipped": meaning(sum(b, a)), "value_add": value_sum}}));
             }
         }
     }
